@@ -613,6 +613,24 @@ func (e *Engine) initStubs() {
 		c.pushed = true
 		return nil
 	})
+	e.stub("(*encoding/json.Encoder).Encode", func(e *Engine, st *State, th *Thread, c *callCtx) Value {
+		helper := e.vrt.Func("jsonEncode")
+		if helper == nil || c.instr == nil {
+			panic(&Unsupported{"vrt.jsonEncode missing"})
+		}
+		enc := c.args[0].(Ptr)
+		et := deref(c.fn.Params[0].Type()).Underlying().(*types.Struct)
+		root := loadPath(st.obj(enc.Obj).V, enc.Path).(*StructV)
+		var w Value
+		for i := 0; i < et.NumFields(); i++ {
+			if et.Field(i).Name() == "w" {
+				w = root.F[i]
+			}
+		}
+		e.pushFrame(st, th, helper, nil, []Value{w, c.args[1]}, false)
+		c.pushed = true
+		return nil
+	})
 	e.stub("encoding/json.Unmarshal", func(e *Engine, st *State, th *Thread, c *callCtx) Value {
 		helper := e.vrt.Func("jsonUnmarshal")
 		if helper == nil || c.instr == nil {
